@@ -264,6 +264,8 @@ class GenOpts:
     enum_zero_first: bool = False  # only enums whose first member is 0 (KF-py-enum-default excluded)
     max_bits: int = 4000
     big_prob: float = 0.03  # probability of a large array
+    ext_prob: float = 0.38  # probability that a message / array is extensible
+    scalar_prob: float = 0.55  # probability that an element type is a scalar rather than a reference
 
 
 class SchemaGen:
@@ -327,7 +329,7 @@ class SchemaGen:
         """type allowed as array element: anything but an (unaliased) array"""
         r = self.rng
         k = r.random()
-        if k < 0.55:
+        if k < self.o.scalar_prob:
             return self.scalar()
         cands = []
         if self.o.allow_enum:
@@ -352,7 +354,7 @@ class SchemaGen:
         r = self.rng
         if r.random() < 0.3:
             e = self.elem_type(depth, scope)
-            return TArray(e, self.cap(), self.o.allow_ext and r.random() < 0.4)
+            return TArray(e, self.cap(), self.o.allow_ext and r.random() < self.o.ext_prob)
         return self.elem_type(depth, scope)
 
     def alias(self, parent: Optional[MsgDef]) -> AliasDef:
@@ -361,14 +363,14 @@ class SchemaGen:
             e = self.elem_type(0, parent)
             # alias element must not itself be an alias-to-array inside array? allowed by the
             # compiler (2d array through alias); keep it.
-            t = TArray(e, self.cap(), self.o.allow_ext and r.random() < 0.3)
+            t = TArray(e, self.cap(), self.o.allow_ext and r.random() < self.o.ext_prob)
         else:
             t = self.scalar()
         return AliasDef(self.fresh("Al"), t, parent)
 
     def message(self, depth: int, parent: Optional[MsgDef]) -> MsgDef:
         r = self.rng
-        m = MsgDef(self.fresh("Msg"), self.o.allow_ext and r.random() < 0.35, parent=parent)
+        m = MsgDef(self.fresh("Msg"), self.o.allow_ext and r.random() < self.o.ext_prob, parent=parent)
         if self.o.allow_nested_defs and depth < self.o.max_depth:
             for _ in range(r.choice([0, 0, 0, 1, 1, 2])):
                 if r.random() < 0.5 and self.o.allow_enum:
